@@ -1,4 +1,4 @@
-"""C06 kernel: the prelude helper that converts a 64-bit integer to float32, for ALL 2^64 arguments.
+"""C06 kernel: the prelude helpers that convert a 64-bit integer to float32 and to float64, for ALL 2^64 arguments.
 
 The general engine holds JavaScript integers as SMT Ints; a conversion int64 -> float32 then needs the Int<->BitVec bridge under a
 floating-point rounding, which z3 does not finish.  This kernel translates the helper's current source text
@@ -14,12 +14,15 @@ sys.path.insert(0, os.path.join(os.path.dirname(os.path.abspath(__file__)), '..'
 from vlib import core  # noqa: E402
 
 HELPER = '$flatten64ToFloat32'
+# (helper, (_ to_fp ...) of the specification, Go conversion used by the replay)
+HELPERS = [('$flatten64ToFloat32', 'to32', 'float32'), ('$flatten64', 'to64', 'float64')]
 
 
-def _replay(x, signed, where):
+def _replay(x, signed, where, ft='float32'):
     t = 'int64' if signed else 'uint64'
-    src = ('package main\n\nimport "math"\n\n//go:noinline\nfunc conv(x %s) float32 { return float32(x) }\n\nvar arg %s = %d\n\n'
-           'func main() { println(math.Float32bits(conv(arg))) }\n' % (t, t, x))
+    bits = 'math.Float32bits(conv(arg))' if ft == 'float32' else 'uint32(math.Float64bits(conv(arg))>>32), uint32(math.Float64bits(conv(arg)))'
+    src = ('package main\n\nimport "math"\n\n//go:noinline\nfunc conv(x %s) %s { return %s(x) }\n\nvar arg %s = %d\n\n'
+           'func main() { println(%s) }\n' % (t, ft, ft, t, x, bits))
     core.write_pkg(where, {'main.go': src})
     go_rc, go_out, go_err = core.go_run(where)
     ok, js = core.compile_js(where)
@@ -32,63 +35,64 @@ def _replay(x, signed, where):
 def run(tier):
     t0 = time.time()
     src = os.path.join(core.REPO, 'compiler', 'prelude', 'numeric.js')
-    ev = {'what': 'the prelude helper %s translated from its current source into BitVec/Float64 terms: result = float32 nearest to the 64-bit integer (one rounding, ties to even), for all 2^64 arguments, signed and unsigned' % HELPER,
-          'functions_encoded': [HELPER + ' (compiler/prelude/numeric.js)'], 'bounds': 'none on the argument; the helper is loop-free', 'queries': [], 'solver': core.Z3}
+    ev = {'what': 'the prelude helpers $flatten64ToFloat32 and $flatten64 translated from their current source into BitVec/Float64 terms: result = float32 / float64 nearest to the 64-bit integer (one rounding, ties to even), for all 2^64 arguments, signed and unsigned',
+          'functions_encoded': [h[0] + ' (compiler/prelude/numeric.js)' for h in HELPERS], 'bounds': 'none on the argument; the helper is loop-free', 'queries': [], 'solver': core.Z3}
     violations = []
     try:
-        for signed in (True, False):
-            p = core.run(['node', '--expose-internals', os.path.join(core.JSX, 'fn2smt.js'), src, HELPER, 'signed' if signed else 'unsigned'], check=False)
-            try:
-                tr = json.loads(p.stdout.strip().split('\n')[-1])
-            except Exception:  # noqa
-                ev['queries'].append({'signed': signed, 'result': 'translator failed', 'detail': (p.stdout + p.stderr)[-300:]})
-                continue
-            if tr.get('absent'):
-                ev['queries'].append({'signed': signed, 'result': 'helper absent in this tree: nothing to decide here (the conversion cases of the corpus still apply)'})
-                continue
-            if tr.get('unsupported'):
-                ev['queries'].append({'signed': signed, 'result': 'inconclusive: source uses a construct outside the translator: ' + tr['unsupported']})
-                continue
-            ev['source'] = tr['source']
-            conv = '(_ to_fp 8 24) RNE' if signed else '(_ to_fp_unsigned 8 24) RNE'
-            spec = '((_ to_fp 11 53) RNE (%s (concat high low)))' % conv
-            # one-shot solver runs: z3's incremental (push/pop) mode takes the lazy floating-point theory instead of bit-blasting and is ~20x slower here
-            pre = tr['decls'] + ['(define-fun impl () (_ FloatingPoint 11 53) %s)' % tr['result'], '(define-fun spec () (_ FloatingPoint 11 53) %s)' % spec]
+        for HELPER, kind, ft in HELPERS:
+          for signed in (True, False):
+              p = core.run(['node', '--expose-internals', os.path.join(core.JSX, 'fn2smt.js'), src, HELPER, 'signed' if signed else 'unsigned'], check=False)
+              try:
+                  tr = json.loads(p.stdout.strip().split('\n')[-1])
+              except Exception:  # noqa
+                  ev['queries'].append({'helper': HELPER, 'signed': signed, 'result': 'translator failed', 'detail': (p.stdout + p.stderr)[-300:]})
+                  continue
+              if tr.get('absent'):
+                  ev['queries'].append({'helper': HELPER, 'signed': signed, 'result': 'helper absent in this tree: nothing to decide here (the conversion cases of the corpus still apply)'})
+                  continue
+              if tr.get('unsupported'):
+                  ev['queries'].append({'helper': HELPER, 'signed': signed, 'result': 'inconclusive: source uses a construct outside the translator: ' + tr['unsupported']})
+                  continue
+              ev['source'] = tr['source']
+              conv = ('(_ to_fp %s) RNE' if signed else '(_ to_fp_unsigned %s) RNE') % (('8 24',) if kind == 'to32' else ('11 53',))
+              spec = ('((_ to_fp 11 53) RNE (%s (concat high low)))' if kind == 'to32' else '(%s (concat high low))') % conv
+              # one-shot solver runs: z3's incremental (push/pop) mode takes the lazy floating-point theory instead of bit-blasting and is ~20x slower here
+              pre = tr['decls'] + ['(define-fun impl () (_ FloatingPoint 11 53) %s)' % tr['result'], '(define-fun spec () (_ FloatingPoint 11 53) %s)' % spec]
 
-            def oneshot(asserts, tag, want_model=False):
-                f = os.path.join(core.scratch(), 'c06_prelude_%s_%s.smt2' % ('s' if signed else 'u', tag))
-                with open(f, 'w') as fh:
-                    fh.write('\n'.join(pre + ['(assert %s)' % x for x in asserts] + ['(check-sat)'] + (['(get-value (high low))'] if want_model else [])) + '\n')
-                pr = core.run([core.Z3, '-T:400', f], check=False, timeout=460)
-                out = pr.stdout.strip()
-                first = out.split('\n')[0].strip() if out else 'unknown'
-                if first not in ('sat', 'unsat') or ('(error' in out and first != 'unsat'):
-                    first = 'unknown' if first not in ('sat',) else first
-                return first, out
-            # vacuity: every branch of the helper is reachable in both directions
-            wit = []
-            for i, c in enumerate(tr['branch_conditions']):
-                wit.append([oneshot([c], 'w%da' % i)[0], oneshot(['(not %s)' % c], 'w%db' % i)[0]])
-            q0 = time.time()
-            r, val = oneshot(['(not (= impl spec))'], 'main', want_model=True)
-            q = {'signed': signed, 'query': 'exists high, low: helper(high, low) != float32(concat(high, low))', 'result': r, 'solver_s': round(time.time() - q0, 2), 'branch_witnesses': wit}
-            if r == 'sat':
-                import re
-                m = dict(re.findall(r'\((high|low) #x([0-9a-f]{8})\)', val))
-                x = (int(m['high'], 16) << 32) | int(m['low'], 16)
-                if signed and x >= 1 << 63:
-                    x -= 1 << 64
-                where = os.path.join(core.VERIF, 'evidence', 'replay', 'C06', 'flatten64ToFloat32_%s' % ('int64' if signed else 'uint64'))
-                rp = _replay(x, signed, where)
-                q['model'] = x
-                q['replay'] = rp
-                if rp['differs']:
-                    violations.append({'where': where, 'x': x, 'signed': signed, 'go': rp['go'], 'js': rp['js']})
-                else:
-                    q['result'] = 'spurious: the model does not reproduce (encoding suspect)'
-            ev['queries'].append(q)
+              def oneshot(asserts, tag, want_model=False):
+                  f = os.path.join(core.scratch(), 'c06_prelude_%s_%s_%s.smt2' % (kind, 's' if signed else 'u', tag))
+                  with open(f, 'w') as fh:
+                      fh.write('\n'.join(pre + ['(assert %s)' % x for x in asserts] + ['(check-sat)'] + (['(get-value (high low))'] if want_model else [])) + '\n')
+                  pr = core.run([core.Z3, '-T:400', f], check=False, timeout=460)
+                  out = pr.stdout.strip()
+                  first = out.split('\n')[0].strip() if out else 'unknown'
+                  if first not in ('sat', 'unsat') or ('(error' in out and first != 'unsat'):
+                      first = 'unknown' if first not in ('sat',) else first
+                  return first, out
+              # vacuity: every branch of the helper is reachable in both directions
+              wit = []
+              for i, c in enumerate(tr['branch_conditions']):
+                  wit.append([oneshot([c], 'w%da' % i)[0], oneshot(['(not %s)' % c], 'w%db' % i)[0]])
+              q0 = time.time()
+              r, val = oneshot(['(not (= impl spec))'], 'main', want_model=True)
+              q = {'helper': HELPER, 'signed': signed, 'query': 'exists high, low: helper(high, low) != %s(concat(high, low))' % ft, 'result': r, 'solver_s': round(time.time() - q0, 2), 'branch_witnesses': wit}
+              if r == 'sat':
+                  import re
+                  m = dict(re.findall(r'\((high|low) #x([0-9a-f]{8})\)', val))
+                  x = (int(m['high'], 16) << 32) | int(m['low'], 16)
+                  if signed and x >= 1 << 63:
+                      x -= 1 << 64
+                  where = os.path.join(core.VERIF, 'evidence', 'replay', 'C06', '%s_%s' % (HELPER.strip('$'), 'int64' if signed else 'uint64'))
+                  rp = _replay(x, signed, where, ft)
+                  q['model'] = x
+                  q['replay'] = rp
+                  if rp['differs']:
+                      violations.append({'where': where, 'x': x, 'signed': signed, 'helper': HELPER, 'ft': ft, 'go': rp['go'], 'js': rp['js']})
+                  else:
+                      q['result'] = 'spurious: the model does not reproduce (encoding suspect)'
+              ev['queries'].append(q)
     finally:
         pass
     ev['wall_s'] = round(time.time() - t0, 1)
-    ev['complete'] = all(q.get('result') in ('unsat',) or 'absent' in str(q.get('result')) for q in ev['queries']) and len(ev['queries']) == 2
+    ev['complete'] = all(q.get('result') in ('unsat',) or 'absent' in str(q.get('result')) for q in ev['queries']) and len(ev['queries']) == 2 * len(HELPERS)
     return violations, ev
